@@ -10,13 +10,13 @@
 
 #include <string.h>
 
-enum { M_INSERT = 1, M_FIND, M_ERASE, M_ERASE_IT, M_CLEAR };
+enum { M_INSERT = 1, M_FIND, M_ERASE, M_ERASE_IT, M_CLEAR, M_CHURN };
 
 static const char *m_opname(int k)
 {
     switch (k) {
     case M_INSERT: return "insert"; case M_FIND: return "find"; case M_ERASE: return "erase";
-    case M_ERASE_IT: return "erase_iterator"; case M_CLEAR: return "clear";
+    case M_ERASE_IT: return "erase_iterator"; case M_CLEAR: return "clear"; case M_CHURN: return "churn";
     }
     return "?";
 }
@@ -301,6 +301,70 @@ static void ik_clear_cb(void *obj, void *priv)
     CB_LEAVE();
 }
 
+/* a very large map: 131 072 ... 300 000 integer keys inserted in ascending / descending / random order (the embedded
+ * red-black tree gets 32-35 levels deep), every key found, a quarter erased, cleared (every remaining entry handed over
+ * exactly once, every node released), used again */
+static uint64_t hm_calls, hm_sum, hm_bad; static size_t hm_n;
+static void hm_clear_cb(void *obj, void *priv)
+{
+    cstl_map_iterator_t *it = obj; uintptr_t k = (uintptr_t)it->key;
+    if (priv != (void *)&hm_calls || k < 1 || k > hm_n || it->val != (void *)(k * 2)) hm_bad++;
+    hm_calls++; hm_sum += k;
+}
+static void huge_map(const plan_t *p)
+{
+    static const size_t sizes[] = { 131072, 200000, 262144, 300000 };
+    struct simheap_cfg hc = { RP_MOVE, (uint64_t)1 << 30, (unsigned char)p->cfg[CF_JUNK] };
+    static cstl_map_t hm; static cstl_map_iterator_t it; static int rc;
+    /* map clear is in C08's statement and in C15's: the batch of either check runs this, under its own label */
+    const char *clrprop = p->mode == 115 ? "C15" : "C08";
+    size_t n = sizes[p->cfg[CF_KEYS] % 4], i, erased = 0; int pattern = (int)(p->cfg[CF_CMP] % 3); uint64_t x = p->cfg[CF_MAXN], expect = 0;
+    simheap_reset(&hc, p->cfg[CF_JUNK]);
+    sim_watchdog(100);
+    mode_g = p->mode; since_clear = -1; aux_nodes = 0; hm_n = n;
+    g_cur_prop = "C08"; g_cur_ctx = "huge-map"; g_run.step = 0; g_run.opkind = M_INSERT; g_run.steps++;
+    memset(&hm, (int)(unsigned char)p->cfg[CF_JUNK], sizeof hm);
+    cstl_map_init(&hm, ik_cmp, NULL);
+    for (i = 0; i < n; i++) {
+        uintptr_t k = pattern == 0 ? i + 1 : pattern == 1 ? n - i : 1 + (uintptr_t)(splitmix64(&x) % n);
+        g_inlib = 1; rc = cstl_map_insert(&hm, (const void *)k, (void *)(k * 2), NULL); g_inlib = 0;
+        if (rc < 0) sim_harness_bug("map: huge map could not allocate");
+    }
+    if (pattern == 2) n = cstl_map_size(&hm);       /* random keys repeat */
+    else if (cstl_map_size(&hm) != n) VIOL("size", "huge map reports size %zu after %zu distinct inserts", cstl_map_size(&hm), n);
+    g_run.opkind = M_FIND;
+    for (i = 1; i <= hm_n; i += 1 + hm_n / 50000) {
+        TRY(cstl_map_find(&hm, (const void *)i, &it));
+        if (pattern != 2 && (it.key != (const void *)i || it.val != (void *)(i * 2))) VIOL("find_present", "huge map: key %zu is stored but find did not yield it", i);
+    }
+    g_run.opkind = M_ERASE;
+    /* in half of the runs nothing is erased: the tree is cleared at its full height */
+    if (p->cfg[CF_MAXN] & 1)
+    for (i = 1; i <= hm_n; i += 4) {
+        TRY(rc = cstl_map_erase(&hm, (const void *)i, &it));
+        if (rc == 0) { erased++; if (it.key != (const void *)i) VIOL("erase_reports", "huge map: erase of key %zu reported another entry", i); }
+        else if (pattern != 2) VIOL("erase_present_rc", "huge map: erase of stored key %zu returned %d", i, rc);
+    }
+    if (cstl_map_size(&hm) != n - erased) VIOL("size", "huge map reports size %zu, reference has %zu", cstl_map_size(&hm), n - erased);
+    /* what is left: found by walking the keys (the model for the clear) */
+    for (i = 1; i <= hm_n; i++) { g_inlib = 1; cstl_map_find(&hm, (const void *)i, &it); g_inlib = 0; if (it.key == (const void *)i) expect += i; }
+    g_cur_prop = clrprop; g_cur_ctx = "huge-map-clear"; g_run.opkind = M_CLEAR;
+    hm_calls = hm_sum = hm_bad = 0;
+    TRY(cstl_map_clear(&hm, hm_clear_cb, &hm_calls));
+    if (g_aborted) VIOLP(clrprop, "abort", "clear of a huge map aborted");
+    if (hm_bad) VIOLP(clrprop, "clear_foreign", "clear of a huge map handed over %llu entries that were never stored (or a wrong private pointer)", (unsigned long long)hm_bad);
+    if (hm_calls != n - erased || hm_sum != expect) VIOLP(clrprop, "clear_count", "clear of a map of %zu entries called back %llu times (key sum %llu, expected %llu)", n - erased, (unsigned long long)hm_calls, (unsigned long long)hm_sum, (unsigned long long)expect);
+    if (cstl_map_size(&hm) != 0) VIOLP(clrprop, "size", "size is %zu after clear", cstl_map_size(&hm));
+    if (simheap_live_count(TAG_LIB) != 0) VIOLP("C08", "clear_leak", "%u map nodes still allocated after clear", simheap_live_count(TAG_LIB));
+    TRY(rc = cstl_map_insert(&hm, (const void *)7, (void *)14, &it));
+    if (rc != 0 || cstl_map_size(&hm) != 1) VIOLP(clrprop, "reuse", "the cleared huge map is not usable like a fresh one");
+    TRY(cstl_map_clear(&hm, NULL, NULL));
+    simheap_audit("C08", "huge-map");
+    PROBE("huge_map"); if (hm_n >= 200000 && pattern != 2) PROBE("huge_map_deeper_than_32_levels");
+    EVT("huge_map", hm_n, pattern, erased);
+    g_run.nontrivial = 1;
+}
+
 static void intkey_once(const plan_t *p)
 {
     struct simheap_cfg hc = { RP_MOVE, 0, (unsigned char)p->cfg[CF_JUNK] };
@@ -375,6 +439,7 @@ static void m_once(const plan_t *p)
     static struct mkey probe;
     static int rc;
 
+    if (p->mode == 108 || p->mode == 115) { huge_map(p); return; }
     if (p->cfg[CF_INTKEYS] && p->mode != 16) { intkey_once(p); return; }
     simheap_reset(&hc, p->cfg[CF_JUNK]);
     faultenum_apply();
@@ -538,6 +603,36 @@ static void m_once(const plan_t *p)
         case M_CLEAR:
             do_clear();
             break;
+        case M_CHURN: {
+            /* something that only matters on the n-th repetition: an entry is found and erased through the iterator,
+             * then a transient entry is inserted and erased through its iterator 254 ... 65 537 times in a row with no
+             * lookup in between (removal counts around 2^8 and 2^16), then the first key is looked up again */
+            static const unsigned reps[] = { 254, 255, 256, 65534, 65535, 65536 };
+            static struct mkey transient; unsigned n = reps[o->a[2] % 6], q;
+            if (nent == 0 || cmpkind == 3 || p->mode == 16) { EVT("skip", 0, 0, 0); break; }     /* not under injected allocation failures: the transient inserts must succeed */
+            ei = (int)(o->a[3] % (uint64_t)nent); val = ent[ei].k->val;
+            probe.val = val;
+            TRY(cstl_map_find(&map, &probe, &it));
+            if (it.key != ent[ei].k) VIOL("find_present", "find of key %d did not yield the stored pointers", val);
+            TRY(cstl_map_erase_iterator(&map, &it));
+            held_forget(ent[ei].kid);
+            simheap_free(ent[ei].k); simheap_free(ent[ei].v); ent[ei] = ent[--nent];
+            transient.magic = KMAGIC; transient.tail = ~KMAGIC; transient.id = -6; transient.val = keys + 7;      /* beyond every key in use */
+            g_cur_ctx = n > 60000 ? "churn-2^16" : "churn-2^8";
+            for (q = 0; q < n; q++) {
+                g_inlib = 1;
+                rc = cstl_map_insert(&map, &transient, NULL, &it);
+                if (rc == 0) cstl_map_erase_iterator(&map, &it);
+                g_inlib = 0;
+                if (rc != 0) VIOL("insert_new_rc", "insert of a key that is not in the map returned %d (repetition %u)", rc, q);
+            }
+            TRY(cstl_map_find(&map, &probe, &it));
+            if (g_aborted) VIOL("abort", "find aborted");
+            if (!cstl_map_iterator_eq(&it, cstl_map_iterator_end(&map))) VIOL("find_absent", "key %d was erased %u removals ago and is found again", val, n + 1);
+            PROBE(n > 60000 ? "churn_2^16_removals" : "churn_2^8_removals");
+            EVT("churn", val, n, nent);
+            break;
+        }
         default: EVT("skip", 0, 0, 0);
         }
         g_cur_prop = prop_now(); g_cur_ctx = ctx_now();
@@ -571,6 +666,15 @@ static void m_gen(prng_t *r, int mode, plan_t *p)
     unsigned w_clear = mode == 15 ? 10 : 2;
     int faults = mode == 8 && prng_chance(r, 1, 4);
     int i;
+    if (mode == 108 || mode == 115) {
+        /* sizes and key orders in turn: the first four runs are 300000 ascending, 262144 descending, 200000 ascending, 131072 random */
+        static const uint64_t sz[4] = { 3, 2, 1, 0 }, pat[4] = { 0, 1, 0, 2 };
+        p->cfg[CF_KEYS] = g_gen_index < 4 ? sz[g_gen_index] : prng_below(r, 4);
+        p->cfg[CF_CMP] = g_gen_index < 4 ? pat[g_gen_index] : prng_below(r, 3);
+        p->cfg[CF_JUNK] = 1 + prng_below(r, 254); p->cfg[CF_MAXN] = prng_next(r);
+        if (g_gen_index < 4) p->cfg[CF_MAXN] = (p->cfg[CF_MAXN] & ~(uint64_t)1) | (g_gen_index >= 2);
+        return;
+    }
     if (mode == 16) nops = 8 + (int)prng_below(r, 30);
     p->cfg[CF_KEYS] = small ? 1 + prng_below(r, 4) : longrun ? 20 + prng_below(r, 600) : 2 + prng_below(r, 39);
     p->cfg[CF_JUNK] = 1 + prng_below(r, 254);
@@ -587,6 +691,7 @@ static void m_gen(prng_t *r, int mode, plan_t *p)
         o->a[1] = (kind == M_INSERT && faults && prng_chance(r, 1, 5)) ? 1 : 0;     /* attached allocation failure */
         o->a[2] = prng_below(r, 32);          /* bits 3/4: hold the found iterator / erase through a held one */
         o->a[3] = prng_next(r) >> 8;
+        if (kind == M_FIND && prng_chance(r, 1, 400)) { o->kind = M_CHURN; o->a[2] = prng_below(r, 6); }
         if (kind == M_CLEAR && prng_chance(r, 3, 4)) {
             int j, nf = 1 + (int)prng_below(r, 5);
             for (j = 0; j < nf; j++) { op_t *q = plan_add(p, M_INSERT); q->a[0] = prng_below(r, 4096); q->a[2] = prng_below(r, 8); }
